@@ -1117,6 +1117,26 @@ func (e *CEnv) callExpr(x *CExpr) (Val, error) {
 			}
 		}
 		return Val{}, fmt.Errorf("ranged(): the ranged slice was not found")
+	case "lastIndexOf", "indexOf":
+		// lastIndexOf(s, sep) / indexOf(s, sep): what strings.LastIndex / strings.Index return in the engine's model
+		as, err := evalArgs()
+		if err != nil {
+			return Val{}, err
+		}
+		fn := "str_lastindex"
+		if x.Name == "indexOf" {
+			fn = "str_index"
+		}
+		c.smt.declareFun(fn, []string{"Str", "Str"}, "Int")
+		return Val{T: tInt, Term: app(fn, as[0].Term, as[1].Term)}, nil
+	case "strsub":
+		// strsub(s, lo, hi): s[lo:hi]
+		as, err := evalArgs()
+		if err != nil {
+			return Val{}, err
+		}
+		c.smt.declareFun("str_sub", []string{"Str", "Int", "Int"}, "Str")
+		return Val{T: tStr, Term: app("str_sub", as[0].Term, as[1].Term, as[2].Term)}, nil
 	case "posInf":
 		// posInf(): math.Inf(1) -- the IEEE value, or (floats real) the same uninterpreted real the model of math.Inf gives
 		if c.floatsIEEE {
